@@ -1,4 +1,4 @@
-HOOK_COMMITS = []
+HOOK_COMMITS = ["3190446"]
 NOTES = ("All checks: bin/check <id> --tier quick|thorough (env VERIF_SEED). Exit 0 held / 1 violation / 2 machinery error. "
          "Known findings: /verif/known_findings.jsonl. Design: /verif/DESIGN.md.")
 NOT_APPLICABLE = {
@@ -65,5 +65,15 @@ CHECKS = {
                 "geometries, highest-dimension member for collections).",
         "note": TLCNOTE + "Exact on lattices N<=16 and exact-similarity images; points within 2^-10 of a ring are inconclusive.",
         "technique": "TLA+ interior/boundary location oracle; TLC trace validation of recorded Boundary/PointOnSurface calls",
+    },
+    "C11": {
+        "text": "RTree.tla is a step-machine model of the bulk-loaded R-tree (every partition the documented rule allows, depth-first "
+                "range search, best-first priority search, nondeterministic callback answers); TLC checks TreeInv, NoRevisit, OnlyHits, "
+                "PrioOrder, Complete and StopIsFinal in every reachable state of the bounded model, and validates recorded histories of "
+                "the real rtree package (Load with the node structure exported by the verif hook, Start/Cb/Ret per search, Nearest) event "
+                "by event: a callback after Stop, a revisit, a miss, a wrong order or return value has no enabled step.",
+        "note": TLCNOTE + "Model bound: 5 box shapes, 4 queries, <=4 (quick) / <=5 (thorough) items; histories: sizes 0..40 round-robin "
+                "and up to 5000, integer boxes < 2^14. Hook: rtree.VerifDump (build tag verif).",
+        "technique": "TLA+ step-machine model checked exhaustively by TLC + TLC trace validation of recorded search histories (state variables per history)",
     },
 }
